@@ -95,6 +95,7 @@ func stuckPod(p *corev1.Pod, now time.Time) bool {
 type monRoll struct {
 	baseMon
 	lastOps     map[string]time.Time // ERS -> start of last sync with pod ops and a successful status write
+	lastWrite   map[string]uint64    // ERS -> sequence number of that sync's status write
 	activeSince map[string]time.Time // ERS -> start of the first active-role sync after a recorded inactive one
 	inactive    map[string]bool      // ERS -> its last successfully recorded sync was not in the active role
 }
@@ -273,28 +274,51 @@ func (m *monRoll) TaskEnd(s *Sim, t *Task) {
 	}
 	key := t.Key.String()
 	if len(v.PodCreates)+len(v.PodDeletes) > 0 {
-		if last, ok := m.lastOps[key]; ok {
-			s.Stats.NonVacuous["C09.spacing"]++
-			gap := t.StartAt.Sub(last)
-			if gap < edsFreq(v.EDS)-time.Second {
-				s.Violate("C09", "spacing", "", "%s acted on pods %v after its previous acting sync (reconcileFrequency %v)", t.Label(), gap, edsFreq(v.EDS))
-			}
-		}
 		// "as long as its status writes succeed": a sync whose status write failed does not count;
 		// one that issued none at all does (nothing failed)
 		okWrite := true
+		var writeSeq uint64
 		for _, c := range v.StatusWrites {
 			if c.Kind == KERS && !c.Applied() {
 				okWrite = false
+			}
+			if c.Kind == KERS && c.Applied() {
+				writeSeq = c.Seq
 			}
 		}
 		if t.Crashed || t.Panic != nil {
 			okWrite = false
 		}
+		// A sync that read the replica set before the previous acting sync had recorded itself (two
+		// controller instances overlapping) could not know about it: the pair is judged only if this
+		// sync's own status write went through as well - the optimistic lock is what makes it fail.
+		var readSeq uint64
+		for _, c := range t.Calls {
+			if c.Verb == "get" && c.Kind == KERS && c.Err == nil {
+				readSeq = c.Seq
+				break
+			}
+		}
+		overlapped := m.lastWrite != nil && readSeq < m.lastWrite[key]
+		if last, ok := m.lastOps[key]; ok && (!overlapped || okWrite) {
+			s.Stats.NonVacuous["C09.spacing"]++
+			if overlapped {
+				s.Stats.NonVacuous["C09.spacing-overlapped"]++
+			}
+			gap := t.StartAt.Sub(last)
+			if gap < edsFreq(v.EDS)-time.Second {
+				s.Violate("C09", "spacing", "", "%s acted on pods %v after its previous acting sync (reconcileFrequency %v)", t.Label(), gap, edsFreq(v.EDS))
+			}
+		}
+		if m.lastWrite == nil {
+			m.lastWrite = map[string]uint64{}
+		}
 		if okWrite {
 			m.lastOps[key] = t.StartAt
-		} else {
+			m.lastWrite[key] = writeSeq
+		} else if !overlapped {
 			delete(m.lastOps, key)
+			delete(m.lastWrite, key)
 		}
 	}
 }
